@@ -186,6 +186,19 @@ CHECKS = {
              "including under 3-bucket hash collisions with tombstone reuse and long chains, every work unit ran exactly once "
              "under FIFO/LIFO/random pop policies",
         ref="DESIGN.md §5 C14"),
+    "C02": dict(
+        technique="runtime monitoring: assembly call wrapper keeping canaries in all callee-saved registers across every "
+                  "switching call, per-ULT MXCSR/x87 control words, stack patterns at several depths, stale-resume counter "
+                  "and running-on flag checked after each resume; stack alignment/range/overlap/guard-zone checks for "
+                  "memory-pool, malloc and user-supplied stacks; library-side occupancy monitor on every context (flag set "
+                  "when a stream switches to it, cleared by a wrapped switch callback once it is saved); delay injection "
+                  "before saving switches; ASan/TSan",
+        category="exploration",
+        text="held on the executions produced: tens of thousands of checked switches per run over all 16 switch operations "
+             "(targets fresh and started, resumed on the same and on other streams), all three stack provenances incl. "
+             "user stacks whose top is not 16-byte aligned, with no stream ever switching to a context that was still "
+             "running or unsaved",
+        ref="DESIGN.md §5 C02"),
 }
 
 
